@@ -57,6 +57,7 @@ fn main() {
         "C07" => props_tp::c07(&cx),
         "C08" => props_tp::c08(&cx),
         "C10" => props_tp::c10(&cx),
+        "C11" => props_tp::c11(&cx),
         "C18" => props_tp::c18(&cx),
         _ => { eprintln!("unknown property {id}"); 2 }
     };
